@@ -465,6 +465,8 @@ class Rat(object):
         else:
             if den.is_zero():
                 raise Undecidable('division by an expression that is identically zero')
+            if not den.is_const() and not num.is_zero():
+                num, den = _cancel_monomials(num, den)
             if den.is_const():
                 num = num.scale(_cinv(den.const_value()))
                 den = _ONE
@@ -644,6 +646,39 @@ class Rat(object):
 _ONE = Poly.const(1)
 
 
+def _cancel_monomials(num, den):
+    """divide numerator and denominator by their common monomial content (no polynomial gcd)"""
+    common = None
+    for p in (num, den):
+        for m in p.t:
+            d = dict(m)
+            if common is None:
+                common = d
+            else:
+                for a in list(common):
+                    e = min(common[a], d.get(a, 0))
+                    if e:
+                        common[a] = e
+                    else:
+                        del common[a]
+            if not common:
+                return num, den
+    if not common:
+        return num, den
+
+    def div(p):
+        out = {}
+        for m, c in p.t.items():
+            d = dict(m)
+            for a, e in common.items():
+                d[a] -= e
+                if d[a] == 0:
+                    del d[a]
+            out[tuple(sorted(d.items()))] = c
+        return Poly(out)
+    return div(num), div(den)
+
+
 def _normalize_pair(n, d):
     """divide both by the leading coefficient of d (first monomial in sorted order)"""
     m0 = min(d.t)
@@ -681,6 +716,19 @@ def apply_fn(fn, x):
     if fn in ('cos', 'sin', 'tan'):
         if x.is_zero():
             return Rat.const(1 if fn == 'cos' else 0)
+        # exact values at integer multiples of pi/2
+        q = x / PI
+        f = q.as_fraction() if q.is_const() else None
+        if f is not None and (2 * f).denominator == 1:
+            k = int(2 * f) % 4
+            c, s_ = [(1, 0), (0, 1), (-1, 0), (0, -1)][k]
+            if fn == 'cos':
+                return Rat.const(c)
+            if fn == 'sin':
+                return Rat.const(s_)
+            if c == 0:
+                raise Undecidable('tan at an odd multiple of pi/2')
+            return Rat.const(0)
         if fn == 'tan':
             return apply_fn('sin', x) / apply_fn('cos', x)
         # parity: put the argument in a canonical sign
